@@ -115,7 +115,27 @@ def one_case(rng, res, intern, stream, root, label):
       return
     nm = rng.choice(names)
     before = {id(b): dict(b.__arguments__) for b in all_b}
+    two = None
+    if len(names) >= 2 and rng.random() < 0.6:
+      # two keywords; prefer as the first one an attribute that currently links a matching node to another one
+      linking = [k for w in want for k, v in w.__arguments__.items() if isinstance(k, str) and k in names
+                 and any(c02.contains(v, w2) for w2 in want if w2 is not w)]
+      first = rng.choice(linking) if linking and rng.random() < 0.8 else nm
+      second = rng.choice([x for x in names if x != first])
+      two = (first, second)
     try:
+      if two:
+        sel.set(**{two[0]: 31337, two[1]: 31338})
+        res.count("set:two-keywords")
+        for w in want:
+          if w.__arguments__.get(two[0]) != 31337 or w.__arguments__.get(two[1]) != 31338:
+            problems.append("set(**two keywords): a node of the selection did not receive both attributes")
+            break
+        else:
+          res.count("set:two-keywords-ok")
+        for p_ in problems[:1]:
+          res.failures.append(Failure(None, f"C15 {label}: {p_}", replay))
+        return
       sel.set(**{nm: 31337})
     except Exception as e:  # pylint: disable=broad-except
       # a subclass may not accept the attribute; that is loud, not silent
@@ -311,6 +331,26 @@ def method_callable_cases(rng, res):
       res.failures.append(Failure(None, f"C15 method-callable#{j}: {p_}", replay))
 
 
+def nested_set_cases(rng, res):
+  """Matching nodes nested inside matching nodes: .set(**kw) assigns every keyword on every node that select()
+  yields, also when an earlier keyword overwrites the attribute through which an inner node was reached."""
+  for j in range(4):
+    inner = fdl.Config(l2.Ka, p=j)
+    mid = rng.choice([fdl.Config, fdl.Partial])(l2.Kb if j % 2 else l2.Ka, p=rng.choice([inner, [inner], {"k": inner}]))
+    outer = fdl.Config(l2.Ka, p=mid, q=inner if j == 3 else 0)
+    root = fdl.Config(l2.fd, x=outer, y=[fdl.Config(l2.fa, 1)])
+    fn = l2.Ka
+    want = list(selectors.select(root, fn, match_subclasses=True, check_nonempty=False))
+    res.evaluations += 1
+    res.count("nested-set")
+    selectors.select(root, fn, match_subclasses=True, check_nonempty=False).set(p=None, q=7)
+    bad = [w for w in want if w.__arguments__.get("p", 0) is not None or w.__arguments__.get("q") != 7]
+    if bad or len(want) != 3:
+      res.failures.append(Failure(None, f"C15 nested-set#{j}: set(p=None, q=7) left {len(bad)} of the {len(want)} "
+                                  "selected nodes without one of the attributes",
+                                  {"label": f"nested-set#{j}", "root": repr(root)[:800]}))
+
+
 def run(tier: str, seed: int) -> Result:
   rng = random.Random(seed * 160481183 + 15)
   res = Result()
@@ -339,4 +379,5 @@ def run(tier: str, seed: int) -> Result:
     c14.tag_positional(rng, root)
     one_case(rng, res, intern, stream, root, f"dag#{i}")
   method_callable_cases(rng, res)
+  nested_set_cases(rng, res)
   return res
